@@ -196,13 +196,17 @@ inductive ItemMap where
   | other (expr : String)
   deriving Repr, DecidableEq
 
-/-- One method of an iterator-trait impl for `IterWrapper`. -/
+/-- One method DEFINED in an `impl Iterator / DoubleEndedIterator / FusedIterator / ExactSizeIterator
+    for IterWrapper` block: `fn m(&mut self, ARGS) { self.inner.<callee>(ARGS') [.map(|item| adopt)] }`. -/
 structure FwdRow where
   /-- `Iterator` | `DoubleEndedIterator` | … -/
   trait : String
   method : String
+  /-- the inner method it forwards to -/
   callee : String
   recv : FwdRecv
+  /-- the method's own parameters handed on as they are, in order (`absent` = it has none) -/
+  args : Pass
   item : ItemMap
   /-- trait bounds put on the inner iterator type parameter by this impl -/
   innerBounds : List String
@@ -237,6 +241,8 @@ structure Tables where
   traits : List TraitRow
   adopts : List AdoptRow
   forwards : List FwdRow
+  /-- every type of the crate with an `impl Iterator` (name, `file:line`) -/
+  iterTypes : List (String × String)
   /-- every trait implemented for `IterWrapper` -/
   iterTraits : List String
   iterNew : NewRow
@@ -467,18 +473,36 @@ def rowOk (t : Tables) : Row → Bool
   | .adopt a => adoptOk a
   | .sliceRef r => sliceRefOk r
 
-/-- One forwarding method of `IterWrapper` is right: `next` → `self.inner.next()`, `next_back` →
-    `self.inner.next_back()` (only under an inner `DoubleEndedIterator` bound), each item adopted from
-    `self.source`; any other overridden method forwards to the same-named inner method unmapped. -/
+/-- The methods of the std iterator traits an `IterWrapper` impl may define by plain forwarding:
+    (name, trait, takes an argument, yields items that have to be adopted). Anything else (e.g. `fold`,
+    whose closure would have to adopt) is an unknown shape: the row fails. -/
+def fwdSpec : List (String × String × Bool × Bool) := [
+  ("next", "Iterator", false, true),
+  ("nth", "Iterator", true, true),
+  ("last", "Iterator", false, true),
+  ("size_hint", "Iterator", false, false),
+  ("count", "Iterator", false, false),
+  ("next_back", "DoubleEndedIterator", false, true),
+  ("nth_back", "DoubleEndedIterator", true, true),
+  ("len", "ExactSizeIterator", false, false)]
+
+/-- One defined iterator method of `IterWrapper` is right: it forwards to the SAME-named method of
+    `self.inner` (`next` → `next`, `next_back` → `next_back`, `nth` → `nth`, `nth_back` → `nth_back`, …),
+    in the impl of the trait that declares it and under the same bound on the inner iterator, hands its
+    own arguments on unchanged, and adopts every yielded item from `self.source` (methods that yield no
+    item return the inner result as is). -/
 def fwdOk (f : FwdRow) : Bool :=
-  f.callee == f.method && f.recv == .selfInner
-  && (if f.method == "next" then
-        f.trait == "Iterator" && f.item == .adoptFrom .selfSourceField && f.itemAdopt
-        && f.innerBounds.contains "Iterator"
-      else if f.method == "next_back" then
-        f.trait == "DoubleEndedIterator" && f.item == .adoptFrom .selfSourceField && f.itemAdopt
-        && f.innerBounds.contains "DoubleEndedIterator"
-      else f.item == .none)
+  match fwdSpec.find? (·.1 == f.method) with
+  | none => false
+  | some (_, tr, hasArg, yields) =>
+    f.callee == f.method && f.recv == .selfInner
+    && f.trait == tr && f.innerBounds.contains tr
+    && passOk hasArg f.args
+    && (if yields then f.item == .adoptFrom .selfSourceField && f.itemAdopt else f.item == .none)
+
+def FwdRow.describe (f : FwdRow) : String :=
+  s!"IterWrapper {f.trait}::{f.method}: forwards to inner `{f.callee}` on {short f.recv}, arguments {short f.args}, " ++
+  s!"item {short f.item}, inner bounds {f.innerBounds}"
 
 /-- `IterWrapper::new(source, inner)` stores its arguments in the fields of the same name. -/
 def newOk (n : NewRow) : Bool :=
@@ -516,10 +540,19 @@ def requiredPatternTypes : List (String × String) := [
 def armLevel : String → Nat
   | "base" => 1 | "reverse" => 2 | "double_ended" => 3 | _ => 0
 
+/-- The iterator types of the crate and the property that owns each: `IterWrapper` (the only one whose
+    items are adopted pieces: this table), `Drain` and `IntoIter` of the vectors (elements moved out:
+    C14). Everything else a user iterates (`chars`, `bytes`, `char_indices`, `iter` of the byte
+    slice, …) comes through `Deref` from std and yields std's own borrowed items. -/
+def knownIterTypes : List String := ["IterWrapper", "Drain", "IntoIter"]
+
 /-- Each required wrapper has exactly one row; each required pattern type has an invocation of at
-    least the required level (for closures: with the `FnMut(char) -> bool` bound). -/
+    least the required level (for closures: with the `FnMut(char) -> bool` bound); the crate has no
+    iterator type besides the classified ones (a new one must be looked at). -/
 def coverageOk (t : Tables) : Bool :=
-  requiredWrappers.all (fun m => (t.wrappers.filter (·.name == m)).length == 1)
+  t.iterTypes.all (fun it => knownIterTypes.contains it.1)
+  && t.iterTypes.any (fun it => it.1 == "IterWrapper")
+  && requiredWrappers.all (fun m => (t.wrappers.filter (·.name == m)).length == 1)
   && requiredPatternTypes.all (fun (ty, lvl) =>
         t.invocations.any (fun i => i.ty == ty && armLevel lvl ≤ armLevel i.arm
           && (ty != "F" || i.whereCl == "F:(FnMut(char)->bool)+Sized")))
